@@ -299,10 +299,11 @@ def evaluate_cases(mod, cases, timeout):
     compare = getattr(mod, 'compare', None)
     for c, irs in zip(cases, impl_replies):
         k += 1  # the reset line
+        base = k
+        k += len(c['lines'])   # the next case starts here even when this one stops at its first difference
         stats['tags'][c.get('tag', '')] = stats['tags'].get(c.get('tag', ''), 0) + 1
         for i, (line, ir) in enumerate(zip(c['lines'], irs)):
-            mr = model_flat[k] if model_flat is not None else 'no-driver'
-            k += 1
+            mr = model_flat[base + i] if model_flat is not None else 'no-driver'
             stats['lines'] += 1
             if ir.startswith('err') or ir == 'timeout':
                 stats['errors'][ir] = stats['errors'].get(ir, 0) + 1
